@@ -231,7 +231,7 @@ def debug_case(ctx, case, env, name="debug"):
 # bit of the repair mask -> finding id.  A deviation is attributed to a defect when switching exactly that repair on in
 # the model makes the model coincide with the specification on that very case.
 MASK_BITS = [(1, "C03-kind"), (2, "C10-disjoint-empty"), (4, "C03-join-kind"), (8, "C03-bound-alias-nil"),
-             (16, "C03-oid"), (32, "C03-string-object"), (128, "C03-spec3-global-bounds"), (256, "C03-zone-binding")]
+             (16, "C03-oid"), (32, "C03-string-object"), (128, "C03-spec3-global-bounds"), (256, "C03-zone-binding"), (512, "C03-spec3-after-bound"), (1024, "C10-optional-unbound")]
 ALL_BIT = 64
 
 
